@@ -96,20 +96,22 @@ def _on_alarm(*_a):
 
 
 def run_guarded(fn, seconds: float = 5.0):
-    """Call fn() under a wall-clock guard.  Returns (status, result) with status in
-    ok | raise | hang | memory.  Safe against the alarm firing late (a long C call
+    """Call fn() under a CPU-time guard (ITIMER_PROF: user+system time of THIS process, so the
+    verdict does not depend on how loaded the machine is; the code under guard is synchronous
+    and CPU-bound, a hang is a loop).  Returns (status, result) with status in
+    ok | raise | hang | memory.  Safe against the signal firing late (a long C call
     is only interrupted when it returns): the timer is disarmed inside the guarded
-    region, so a pending alarm can only surface there."""
+    region, so a pending signal can only surface there."""
     import signal
 
-    old = signal.signal(signal.SIGALRM, _on_alarm)
+    old = signal.signal(signal.SIGPROF, _on_alarm)
     try:
         try:
             try:
-                signal.setitimer(signal.ITIMER_REAL, seconds)
+                signal.setitimer(signal.ITIMER_PROF, seconds)
                 res = fn()
             finally:
-                signal.setitimer(signal.ITIMER_REAL, 0)
+                signal.setitimer(signal.ITIMER_PROF, 0)
             return ("ok", res)
         except CaseTimeout:
             return ("hang", None)
@@ -118,16 +120,16 @@ def run_guarded(fn, seconds: float = 5.0):
         except Exception as e:
             return ("raise", e)
     finally:
-        signal.signal(signal.SIGALRM, old)
+        signal.signal(signal.SIGPROF, old)
 
 
 def guarded(oracle: OracleFn, u, tc, aval, route, tally, seconds: float = 5.0) -> List[Fail]:
-    """Run the oracle under a wall-clock guard and an address-space limit."""
+    """Run the oracle under a CPU-time guard and an address-space limit."""
     status, res = run_guarded(lambda: oracle(u, tc, aval, route, tally), seconds)
     if status == "ok":
         return res
     if status == "hang":
-        return [("hang", f"no result within {seconds}s")]
+        return [("hang", f"no result within {seconds}s of CPU time")]
     if status == "memory":
         return [("memory", "MemoryError (address-space guard)")]
     from .runner import HarnessError
